@@ -228,20 +228,32 @@ def check(ctx, rep):
     fl = ctx.flow(fi)
     sinks = [n for n in own_nodes(fi) if isinstance(n, ast.Call) and norm(n.func) == 'struct.pack_into']
     rep.floor('range.from_int', len(sinks), 1, 'stores')
-    maxint = {}
+    limits = {'minint': {}, 'maxint': {}}
     for n in own_nodes(fi):
-        if isinstance(n, ast.Assign) and norm(n.targets[0]) == 'maxint':
+        if isinstance(n, ast.Assign):
             pol = dict((f.text, f.pol) for f in fl.facts(n)).get('unsigned')
-            maxint[pol] = ctx.fold(n.value)
+            tgt, val = n.targets[0], n.value
+            pairs = list(zip(tgt.elts, val.elts)) if isinstance(tgt, ast.Tuple) and isinstance(val, ast.Tuple) else [(tgt, val)]
+            for t, v in pairs:
+                if norm(t) in limits:
+                    limits[norm(t)][pol] = ctx.fold(v)
     for s in sinks:
         b = bounds(ctx, fl.facts(s), 'in_int')
-        rep.ob('range.from_int', 'lower bound of stored value is -0x8000', b.lo() == -0x8000, b.describe(), ctx.where(s))
+        lo = [t for v, inc, t in b.lower if inc]
+        rep.ob('range.from_int', 'lower bound of stored value is -0x8000 signed / 0 unsigned (after the wrap)',
+               'minint' in lo and limits['minint'] == {True: 0, False: -0x8000}, 'lower %r minint %r' % (lo, limits['minint']), ctx.where(s))
         sym = [t for v, inc, t in b.upper if inc]
         rep.ob('range.from_int', 'upper bound is 0x7fff signed / 0xffff unsigned',
-               'maxint' in sym and maxint == {True: 0xffff, False: 0x7fff}, 'upper %r maxint %r' % (sym, maxint), ctx.where(s))
+               'maxint' in sym and limits['maxint'] == {True: 0xffff, False: 0x7fff}, 'upper %r maxint %r' % (sym, limits['maxint']), ctx.where(s))
     ovf = [r for r, c in ctx.raises_in(fi) if c == 'OVERFLOW']
     rep.ob('range.from_int', 'out of range raises Overflow',
-           len(ovf) == 1 and any(f.text == '-32768 <= in_int <= maxint' and not f.pol for f in fl.facts(ovf[0])),
+           len(ovf) == 1 and any(f.text == 'minint <= in_int <= maxint' and not f.pol for f in fl.facts(ovf[0])),
+           '', ctx.where(fi))
+    # the unsigned wrap adds exactly 0x10000 to negatives, once, before the range test
+    wraps = [n for n in own_nodes(fi) if isinstance(n, ast.AugAssign) and norm(n.target) == 'in_int']
+    rep.ob('range.from_int', 'unsigned negatives are wrapped once by 0x10000 under (unsigned, in_int < 0)',
+           len(wraps) == 1 and isinstance(wraps[0].op, ast.Add) and ctx.fold(wraps[0].value) == 0x10000 and
+           {('unsigned', True), ('in_int < 0', True)} <= set((f.text, f.pol) for f in fl.facts(wraps[0])),
            '', ctx.where(fi))
 
     # bitwise callbacks
@@ -358,7 +370,13 @@ def variants(ctx):
            in_fn('Integer.from_int', lambda fn: mu.replace_expr(fn, lambda n: isinstance(n, ast.Constant) and n.value == 0x7fff, '0x8000')),
            expect='range.from_int'),
         Va('from-int-no-lower-bound', 'break', N,
-           in_fn('Integer.from_int', lambda fn: mu.replace_expr(fn, mu.text_is('-32768 <= in_int <= maxint'), 'in_int <= maxint')),
+           in_fn('Integer.from_int', lambda fn: mu.replace_expr(fn, mu.text_is('minint <= in_int <= maxint'), 'in_int <= maxint')),
+           expect='range.from_int'),
+        Va('from-int-unsigned-lower-bound-signed', 'break', N,
+           in_fn('Integer.from_int', lambda fn: mu.replace_expr(fn, mu.text_is('(0, 65535)'), '(-0x8000, 0xffff)')),
+           expect='range.from_int'),
+        Va('from-int-wrap-unconditional', 'break', N,
+           in_fn('Integer.from_int', lambda fn: mu.replace_expr(fn, mu.text_is('in_int < 0'), 'in_int < 0x8000')),
            expect='range.from_int'),
         Va('intdiv-not-float-safe', 'break', V, in_fn('intdiv', lambda fn: mu.remove_decorator(fn, 'float_safe')), expect='interceptor'),
         Va('handler-maps-zero-div-to-overflow', 'break', V,
